@@ -759,7 +759,15 @@ impl PartitionedFileGroup {
             .iter()
             .position(|f| !f.path.to_path_buf().is_symlink())
             .unwrap_or(0);
-        let retained_file = Arc::new(self.to_keep.swap_remove(retained_idx));
+        let mut retained_file = self.to_keep.swap_remove(retained_idx);
+        // Only symbolic links are retained (their target lies outside the report):
+        // a hard link must be made to the file they point to, not to a link.
+        if matches!(strategy, DedupeOp::HardLink) && retained_file.path.to_path_buf().is_symlink() {
+            if let Ok(resolved) = PathAndMetadata::new(retained_file.path.canonicalize()) {
+                retained_file = resolved;
+            }
+        }
+        let retained_file = Arc::new(retained_file);
         for dropped_file in self.to_drop {
             match strategy {
                 DedupeOp::SymbolicLink => commands.push(FsCommand::SoftLink {
